@@ -80,28 +80,46 @@ func (a *smAn) inlineTarget(call *ast.CallExpr, depth int) *ast.FuncDecl {
 		return nil
 	}
 	if rt := recvType(fn); rt != nil {
-		if namedOf(rt) != "parser" {
-			return nil // URL, cursor, path, sets: modelled by their summaries
+		switch namedOf(rt) {
+		case "parser", "Url":
+		default:
+			return nil // cursor, path, sets: modelled by their summaries
 		}
 	}
-	// only the state machine (or another inlined helper) calls it, and never as a value
-	ix := sitesOf(a.c)
-	if ix.taken[fn] || len(ix.sites[fn]) == 0 {
-		return nil
-	}
-	for _, cs := range ix.sites[fn] {
-		if cs.Fn == a.fn {
-			continue
+	// functions of the reviewed tree keep their reviewed treatment (summaries, named anchors of other rules); only
+	// helpers the reference inventory does not know are walked in place
+	if a.knownFuncs == nil {
+		a.knownFuncs = map[string]bool{}
+		var inv struct {
+			Entities []struct {
+				Kind, Pkg, Owner, Name string
+			} `json:"entities"`
 		}
-		ok := false
-		if o, isF := cs.Fn.Object().(*types.Func); isF && cs.Fn.Parent() == nil {
-			if v, seen := a.inlMemo[o]; seen && v != nil {
-				ok = true
+		readSpec(a.c, "names.json", &inv)
+		for _, e := range inv.Entities {
+			if e.Kind == "func" {
+				a.knownFuncs[e.Pkg+"."+e.Owner+"."+e.Name] = true
 			}
 		}
-		if !ok {
-			return nil
+	}
+	if a.knownFuncs[a.pkg.Name+"."+namedOf(recvType(fn))+"."+callee.Name()] {
+		return nil
+	}
+	// never used as a value (other callers do not matter: walking a helper in place is always faithful; what keeps
+	// the walk small is that only helpers the reference inventory does not know are walked)
+	ix := sitesOf(a.c)
+	if ix.taken[fn] {
+		return nil
+	}
+	nstmts := 0
+	ast.Inspect(fd.Body, func(n ast.Node) bool {
+		if _, ok := n.(ast.Stmt); ok {
+			nstmts++
 		}
+		return true
+	})
+	if nstmts > 160 {
+		return nil
 	}
 	// it does something the walker tracks …
 	interesting := false
@@ -115,6 +133,19 @@ func (a *smAn) inlineTarget(call *ast.CallExpr, depth int) *ast.FuncDecl {
 	for i := 0; i < sig.Results().Len(); i++ {
 		if isNamed(sig.Results().At(i).Type(), "State") {
 			interesting = true
+		}
+	}
+	// predicates over the URL and helpers that pick an encoder are part of the decisions the rules read
+	if sig.Results().Len() == 1 {
+		if b, ok := sig.Results().At(0).Type().Underlying().(*types.Basic); ok && (b.Kind() == types.Bool || b.Kind() == types.String) {
+			if namedOf(recvType(fn)) == "Url" {
+				interesting = true
+			}
+			for i := 0; i < sig.Params().Len(); i++ {
+				if t := sig.Params().At(i).Type(); isNamed(t, "Url") || isNamed(t, "PercentEncodeSet") {
+					interesting = true
+				}
+			}
 		}
 	}
 	hostTypes := a.hostParserTypes()
@@ -460,4 +491,100 @@ func (m *smModel) SiteInMachine(c *Ctx, f *ssa.Function, call *ssa.Call) (*ssa.C
 		f, call = sites[0].Fn, sites[0].Call
 	}
 	return nil, false
+}
+
+// freshVar makes an identifier for the result of a helper walked in place.
+func (a *smAn) freshVar(t types.Type, pos token.Pos) *ast.Ident {
+	a.nfresh++
+	id := &ast.Ident{NamePos: pos, Name: "inl·" + string(rune('a'+a.nfresh%26)) + string(rune('0'+(a.nfresh/26)%10))}
+	a.info.Defs[id] = types.NewVar(pos, a.pkg.Types, id.Name, t)
+	return id
+}
+
+// hoist: inlinable calls nested inside an expression are walked first, their result standing in a fresh variable:
+// buffer.WriteString(p.pick(r, set)) is read as tmp := p.pick(r, set); buffer.WriteString(tmp).
+func (a *smAn) hoist(e ast.Expr, s *pst) (ast.Expr, []*pst, bool) {
+	var target *ast.CallExpr
+	ast.Inspect(e, func(n ast.Node) bool {
+		if target != nil {
+			return false
+		}
+		switch x := n.(type) {
+		case *ast.FuncLit:
+			return false
+		case *ast.BinaryExpr:
+			if x.Op == token.LAND || x.Op == token.LOR {
+				return false // short-circuit operands are not evaluated unconditionally
+			}
+		case *ast.CallExpr:
+			if x != e && a.inlineTarget(x, len(s.inl)) != nil {
+				if callee, _ := typeutil.Callee(a.info, x).(*types.Func); callee != nil {
+					if sig := callee.Type().(*types.Signature); sig.Results().Len() == 1 {
+						target = x
+						return false
+					}
+				}
+			}
+		}
+		return true
+	})
+	if target == nil {
+		return e, nil, false
+	}
+	callee := typeutil.Callee(a.info, target).(*types.Func)
+	id := a.freshVar(callee.Type().(*types.Signature).Results().At(0).Type(), target.Pos())
+	out, ok := a.inlineCall(target, []ast.Expr{id}, token.DEFINE, s)
+	if !ok {
+		return e, nil, false
+	}
+	rw := &replacer{from: target, to: id, a: a}
+	return rw.expr(e), out, true
+}
+
+type replacer struct {
+	from ast.Expr
+	to   ast.Expr
+	a    *smAn
+}
+
+func (r *replacer) expr(e ast.Expr) ast.Expr {
+	if e == nil {
+		return nil
+	}
+	if e == r.from {
+		return r.to
+	}
+	keep := func(n, old ast.Expr) ast.Expr {
+		if tv, ok := r.a.info.Types[old]; ok {
+			r.a.info.Types[n] = tv
+		}
+		return n
+	}
+	switch x := e.(type) {
+	case *ast.ParenExpr:
+		return keep(&ast.ParenExpr{X: r.expr(x.X)}, x)
+	case *ast.StarExpr:
+		return keep(&ast.StarExpr{X: r.expr(x.X)}, x)
+	case *ast.UnaryExpr:
+		return keep(&ast.UnaryExpr{Op: x.Op, X: r.expr(x.X)}, x)
+	case *ast.BinaryExpr:
+		return keep(&ast.BinaryExpr{X: r.expr(x.X), Op: x.Op, Y: r.expr(x.Y)}, x)
+	case *ast.SelectorExpr:
+		n := &ast.SelectorExpr{X: r.expr(x.X), Sel: x.Sel}
+		if sel, ok := r.a.info.Selections[x]; ok {
+			r.a.info.Selections[n] = sel
+		}
+		return keep(n, x)
+	case *ast.CallExpr:
+		n := &ast.CallExpr{Fun: r.expr(x.Fun), Ellipsis: x.Ellipsis, Lparen: x.Lparen, Rparen: x.Rparen}
+		for _, arg := range x.Args {
+			n.Args = append(n.Args, r.expr(arg))
+		}
+		return keep(n, x)
+	case *ast.IndexExpr:
+		return keep(&ast.IndexExpr{X: r.expr(x.X), Index: r.expr(x.Index)}, x)
+	case *ast.SliceExpr:
+		return keep(&ast.SliceExpr{X: r.expr(x.X), Low: r.expr(x.Low), High: r.expr(x.High), Max: r.expr(x.Max), Slice3: x.Slice3}, x)
+	}
+	return e
 }
